@@ -79,8 +79,8 @@ pub fn skip_unreachable<'b: 'b>(_d: &mut minicbor::Decoder<'b>) -> Result<(), Er
     loop {}
 }
 
-/// R3 model of `Decoder::skip` (C06 is what proves skip == R3 on its domain): at most 3 heads,
-/// nesting depth 2.  Leaving that domain is an assertion failure, not a pruned path.
+/// R3 model of `Decoder::skip` (C06 is what proves skip == R3 on its domain): at most 6 heads,
+/// nesting depth 3.  Leaving that domain is an assertion failure, not a pruned path.
 pub fn skip_r3_small<'b: 'b>(d: &mut minicbor::Decoder<'b>) -> Result<(), Error> {
     // minicbor-derive uses skip() to consume the break byte of an indefinite container: on a lone
     // break the real skip() consumes it and returns Ok (not an item; R3 does not cover it)
@@ -88,7 +88,7 @@ pub fn skip_r3_small<'b: 'b>(d: &mut minicbor::Decoder<'b>) -> Result<(), Error>
         let (inp, p) = (d.input(), d.position());
         if p < inp.len() && inp[p] == 0xff { d.set_position(p + 1); return Ok(()) }
     }
-    match vref::wellformed::<2>(d.input(), d.position(), 3) {
+    match vref::wellformed::<3>(d.input(), d.position(), 6) {
         vref::Wf::Ok { end, .. } => { d.set_position(end); Ok(()) }
         vref::Wf::Trunc => Err(Error::end_of_input()),
         vref::Wf::Bad => Err(Error::message("ill-formed item")),
